@@ -74,7 +74,7 @@ def order_vote_rule(cx):
         if len(tested) == 1:
             # an accumulator loop over 0..len, or hull.iter().enumerate().map(..).sum(): one reduction, no condition
             r = CMP.reduction(cx, b, tested[0])
-            ok = r is not None and r['op'] == 'sum' and not r['conds'] and r['src'] is not None and match(H, r['src']) is not None and \
+            ok = r is not None and r['op'] == 'sum' and not r['conds'] and r['src'] is not None and (match(H, r['src']) is not None or match(f'(range 0 (len {H}))', r['src']) is not None) and \
                 r['init'] == ('const', 0) and match(f'(call i32::signum (sub (index {H} (rem (add 1 {I}) (len {H}))) (index {H} {I})))', r['elem']) is not None
             if r is not None and r['form'] == 'loop':
                 from vpa import term as T
